@@ -109,6 +109,20 @@ def program(draw):
             T = draw(LEAF)
             c['new'].append({'name': f'n{name}', 'T': T, 'default': draw(specs.valid_value(T)), 'readonly': False})
         classes.append(c)
+    if mixin and draw(st.integers(0, 4)) == 0:
+        # the override object of the plain mixin is also used in the body of a class which does not inherit from the mixin
+        others = [c for c in classes[1:] if 'Mix' not in c['bases']]
+        users = [c for c in classes[1:] if 'Mix' in c['bases']]
+        if others and users:
+            pn = sorted(mixin['overrides'])[0]
+            if mixin['overrides'][pn].get('kind') == 'partial':
+                mixin['overrides'][pn] = dict(mixin['overrides'][pn], shared='smix')
+                other = draw(st.sampled_from(others))
+                other['overrides'][pn] = dict(mixin['overrides'][pn])
+                parent = next(c for c in classes if c['name'] == other['bases'][-1])
+                if parent['bases'] and 'Mix' not in parent['bases']:
+                    # ... and inherits a property there which the root class does not give
+                    parent['overrides'][pn] = {'kind': 'partial', 'what': 'group', 'value': 'g1'}
     steps = [{'op': 'define', 'cls': c['name']} for c in classes]
     if mixin:
         steps.insert(0, {'op': 'define', 'cls': 'Mix'})
@@ -148,8 +162,10 @@ def program(draw):
 
 @st.composite
 def partial_override(draw, T, kind=None):
-    kind = kind or draw(st.sampled_from(['description', 'default', 'readonly', 'dtprop']))
+    kind = kind or draw(st.sampled_from(['description', 'default', 'readonly', 'dtprop', 'group']))
     o = {'kind': 'partial', 'what': kind}
+    if kind == 'group':      # (a property the root class does not give)
+        o['value'] = draw(st.sampled_from(['g1', 'g2']))
     if kind == 'default':
         o['value'] = draw(specs.valid_value(T))
     elif kind == 'readonly':
@@ -274,6 +290,8 @@ class World:
             return Parameter(default=o['value'])
         if what == 'readonly':
             return Parameter(readonly=o['value'])
+        if what == 'group':
+            return Parameter(group=o['value'])
         return Parameter(**{o['prop']: o['value']})
 
     def create(self, step):
@@ -560,7 +578,7 @@ def valid_program(prog):
             if not c['bases'] or c['bases'][-1] not in names[:i] or (len(c['bases']) > 1 and (c['bases'][:-1] != ['Mix'] or not prog['mixin'])):
                 return False
         names_of = {}
-        for c in prog['classes'][1:]:
+        for c in prog['classes'][1:] + ([prog['mixin']] if prog.get('mixin') else []):
             for pn, o in c['overrides'].items():
                 if o.get('shared'):
                     names_of.setdefault(o['shared'], set()).add(pn)
@@ -574,6 +592,39 @@ def valid_program(prog):
         return all(n in defined for n in names) and (not prog['mixin'] or 'Mix' in defined) and not prog['classes'][0]['bases']
     except (KeyError, TypeError, IndexError):
         return False
+
+
+def mixin_shared_check(ctx, prog):
+    """one override object in the body of a plain mixin (not a module class) and of a class outside the mixin's family: the
+    classes built with the mixin must not depend on that other class being defined (one dedicated oracle and signature, the
+    generic ones would report the same thing under several names)"""
+    steps = [s for s in prog['steps'] if s['op'] == 'define']
+    ctx.ev()
+    world = World(prog, 'a')
+    try:
+        for s_ in steps:
+            world.run_step(s_)
+    except Exception as e:   # noqa
+        ctx.label(f'program-refused:{type(e).__name__}')
+        return
+    for c in prog['classes'][1:]:
+        if 'Mix' not in chain(prog, c['name']):
+            continue
+        members = chain(prog, c['name'])
+        alone = World(prog, 'alone')
+        try:
+            for s_ in steps:
+                if s_['cls'] in members:
+                    alone.run_step(s_)
+        except Exception as e:   # noqa
+            ctx.label(f'program-refused:{type(e).__name__}')
+            return
+        if snap_class(alone.classes[c['name']]) != snap_class(world.classes[c['name']]) or fresh_snap(alone, c['name']) != fresh_snap(world, c['name']):
+            ctx.finding('shared-with-plain-mixin:class-depends-on-other-classes', dict(prog, steps=steps, order=[]),
+                        f'{c["name"]} (built with the mixin) differs when the other user of the override object is defined too: '
+                        f'{diff_names(snap_class(alone.classes[c["name"]]), snap_class(world.classes[c["name"]]))}')
+            return
+    ctx.ok('mixin-shared-object')
 
 
 def check_program(ctx, prog):
@@ -593,6 +644,9 @@ def check_program(ctx, prog):
         for o in c['overrides'].values():
             ctx.label(f'override:{o["kind"]}')
     ctx.sample({'classes': prog['classes'], 'mixin': prog['mixin'], 'steps': steps}, every=97)
+    if prog.get('mixin') and any(o.get('shared') for o in prog['mixin']['overrides'].values()):
+        mixin_shared_check(ctx, prog)
+        return
     final1 = execute(ctx, prog, steps, 'a')
     if final1 is None:
         return
